@@ -16,6 +16,9 @@ import (
 type BytePred struct {
 	P     *Program
 	Steps int
+	// Stores collects `T[i] = v` assignments to package-level tables made by interpreted
+	// statements (table-filling init loops with constant bounds).
+	Stores map[types.Object]map[int64]int64
 }
 
 type bpVal struct {
@@ -26,7 +29,7 @@ type bpVal struct {
 
 type bpEnv map[types.Object]bpVal
 
-const bpMaxSteps = 20000
+const bpMaxSteps = 200000
 
 // EvalBool evaluates a boolean expression under env.
 func (bp *BytePred) EvalBool(info *types.Info, e ast.Expr, env bpEnv) (bool, bool) {
@@ -272,9 +275,85 @@ func (bp *BytePred) exec(info *types.Info, list []ast.Stmt, env bpEnv, depth int
 			}
 			v, ok := bp.eval(info, s.Results[0], env, depth+1)
 			return v, true, ok
+		case *ast.IncDecStmt:
+			obj := ObjOf(info, s.X)
+			l, have := env[obj]
+			if obj == nil || !have || l.Is {
+				return bpVal{}, false, false
+			}
+			if s.Tok == token.INC {
+				l.I++
+			} else {
+				l.I--
+			}
+			env[obj] = bpVal{I: truncate(obj.Type(), l.I)}
+		case *ast.ForStmt:
+			if s.Init != nil {
+				if _, _, ok := bp.exec(info, []ast.Stmt{s.Init}, env, depth+1); !ok {
+					return bpVal{}, false, false
+				}
+			}
+			for iter := 0; ; iter++ {
+				if iter > 100000 {
+					return bpVal{}, false, false
+				}
+				if s.Cond != nil {
+					c, ok := bp.eval(info, s.Cond, env, depth+1)
+					if !ok || !c.Is {
+						return bpVal{}, false, false
+					}
+					if !c.B {
+						break
+					}
+				}
+				if v, done, ok := bp.exec(info, s.Body.List, env, depth+1); !ok || done {
+					return v, done, ok
+				}
+				if s.Post != nil {
+					if _, _, ok := bp.exec(info, []ast.Stmt{s.Post}, env, depth+1); !ok {
+						return bpVal{}, false, false
+					}
+				}
+			}
+		case *ast.RangeStmt:
+			// for i := range <array>: the index runs over the array's length
+			tv := info.Types[s.X]
+			arr, isArr := tv.Type.Underlying().(*types.Array)
+			if !isArr || s.Value != nil || s.Key == nil {
+				return bpVal{}, false, false
+			}
+			kobj := ObjOf(info, s.Key)
+			if kobj == nil {
+				return bpVal{}, false, false
+			}
+			for i := int64(0); i < arr.Len(); i++ {
+				env[kobj] = bpVal{I: i}
+				if v, done, ok := bp.exec(info, s.Body.List, env, depth+1); !ok || done {
+					return v, done, ok
+				}
+			}
 		case *ast.AssignStmt:
 			if len(s.Lhs) != 1 || len(s.Rhs) != 1 {
 				return bpVal{}, false, false
+			}
+			if ix, isIx := Unparen(s.Lhs[0]).(*ast.IndexExpr); isIx && s.Tok == token.ASSIGN {
+				tobj := ObjOf(info, ix.X)
+				iv, ok1 := bp.eval(info, ix.Index, env, depth+1)
+				rv, ok2 := bp.eval(info, s.Rhs[0], env, depth+1)
+				if tobj == nil || tobj.Pkg() == nil || tobj.Parent() != tobj.Pkg().Scope() || !ok1 || !ok2 || iv.Is || rv.Is {
+					return bpVal{}, false, false
+				}
+				if bp.Stores == nil {
+					bp.Stores = map[types.Object]map[int64]int64{}
+				}
+				if bp.Stores[tobj] == nil {
+					bp.Stores[tobj] = map[int64]int64{}
+				}
+				if at, ok := tobj.Type().Underlying().(*types.Array); ok {
+					rv.I = truncate(at.Elem(), rv.I)
+				}
+				bp.Stores[tobj][iv.I] = rv.I
+				continue
 			}
 			obj := ObjOf(info, s.Lhs[0])
 			if obj == nil {
@@ -385,4 +464,11 @@ func (bp *BytePred) exec(info *types.Info, list []ast.Stmt, env bpEnv, depth int
 		}
 	}
 	return bpVal{}, false, true
+}
+
+// ExecBody interprets a function body (no parameters) and returns false if a statement is outside
+// the modelled subset. Table stores are collected in bp.Stores.
+func (bp *BytePred) ExecBody(info *types.Info, body *ast.BlockStmt) bool {
+	_, _, ok := bp.exec(info, body.List, bpEnv{}, 0)
+	return ok
 }
